@@ -185,7 +185,7 @@ impl LabProp for P02 {
     }
 }
 
-const RULE03: &str = "accepted grammars in which every rule is productive (same profiles as C01 plus repository grammars); inputs biased to what makes parsers hang: every kind of prefix of sentences, mutants, long runs of one token, random strings, trivia-only and Error-only inputs, predicates with arbitrary/true/false outcomes, all entry points. The run copy of the emitted parser is instrumented textually (fuel tick in every `loop {`, depth guard in every rule function). Oracle: the parse returns - no panic (index, overflow, debug assertion), fuel (2*10^7 loop iterations) and depth (20000 frames) not exceeded, runner not killed. non-trivial = non-sentence input (>= 1 diagnostic) ending or erring inside a repetition/option at nesting >= 2 (approximated: grammar has nested loops and the reply has an error node or diagnostic); distinct = (grammar, input, modes)";
+const RULE03: &str = "accepted grammars in which every rule is productive (same profiles as C01 plus repository grammars); inputs biased to what makes parsers hang: every kind of prefix of sentences, mutants, long runs of one token, random strings, trivia-only and Error-only inputs, predicates with arbitrary/true/false outcomes, all entry points. The run copy of the emitted parser is instrumented textually (fuel tick in every `loop {`, depth guard in every rule function). Oracle: the parse returns - no panic (index, overflow, debug assertion), fuel (10^6 loop iterations) and depth (20000 frames) not exceeded, runner not killed. non-trivial = non-sentence input (>= 1 diagnostic) ending or erring inside a repetition/option at nesting >= 2 (approximated: grammar has nested loops and the reply has an error node or diagnostic); distinct = (grammar, input, modes)";
 
 impl LabProp for P03 {
     fn id(&self) -> &'static str {
